@@ -19,7 +19,16 @@ fn contract_case(bias: &'static str, zero: bool) -> BoxedStrategy<SimCase> {
 /// `grid`: machines with constant timeouts/durations on a millisecond grid, traces and delays on the
 /// same grid, so that expiries, firings, cancels and packets fall on the same instants
 fn contract_case_on(bias: &'static str, zero: bool, grid: bool) -> BoxedStrategy<SimCase> {
+    contract_case_full(bias, zero, grid, false)
+}
+
+/// `many`: one side runs 65..=90 small machines (more than a machine word has bits)
+fn contract_case_full(bias: &'static str, zero: bool, grid: bool, many: bool) -> BoxedStrategy<SimCase> {
     let mut mp = sim_machine_params(zero);
+    if many {
+        mp.max_states = 2;
+        mp.p_counter = 0.0;
+    }
     if grid {
         mp.dist = crate::gen::DistProfile::Grid;
         mp.prob_style = 0;
@@ -46,14 +55,17 @@ fn contract_case_on(bias: &'static str, zero: bool, grid: bool) -> BoxedStrategy
     (
         tr,
         dl,
-        sim_machines(3, &mp),
-        sim_machines(3, &mp),
+        if many { proptest::collection::vec(crate::gen::machine(&mp), 65..=90).boxed() } else { sim_machines(3, &mp) },
+        sim_machines(if many { 1 } else { 3 }, &mp),
         sim_fracs(),
         seed(),
         (any::<bool>(), any::<bool>(), 150usize..1200),
         text_extras(),
+        any::<bool>(),
     )
-        .prop_map(|(trace, delay_ns, client, server, fracs, seed, (continue_after, hand_queue, iters), (pad_lines, line_style))| SimCase {
+        .prop_map(move |(trace, delay_ns, client, server, fracs, seed, (continue_after, hand_queue, iters), (pad_lines, line_style), swap)| {
+            let (client, server) = if many && swap { (server, client) } else { (client, server) };
+            SimCase {
             trace,
             delay_ns,
             pps: None,
@@ -70,6 +82,7 @@ fn contract_case_on(bias: &'static str, zero: bool, grid: bool) -> BoxedStrategy
             pad_lines,
             line_style,
             repeat: 0,
+            }
         })
         .boxed()
 }
@@ -106,18 +119,24 @@ impl Prop for C16 {
     const RULE: &'static str = "case = trace (1..=40 lines) x delay x 0..=3 machines per side biased to BlockOutgoing (all four bypass/replace combinations) and SendPadding, light distributions (timeouts from 0; durations from 1 us in profile 'blocking', from 0 in profile 'zero') x fractions x seed, iteration-bounded, unfiltered. Non-trivial: a blocking period that held a queued packet (TunnelSent released at the BlockingEnd instant) or that a second action updated. Distinct = hash of the case.";
     fn profiles(tier: Tier) -> Vec<Profile> {
         match tier {
-            Tier::Quick => vec![prof("blocking", 36_000), prof("zero", 18_000), prof("grid", 30_000)],
-            Tier::Thorough => vec![prof("blocking", 450_000), prof("zero", 200_000), prof("grid", 400_000)],
+            Tier::Quick => vec![prof("blocking", 36_000), prof("zero", 18_000), prof("grid", 30_000), prof("many", 600)],
+            Tier::Thorough => vec![prof("blocking", 450_000), prof("zero", 200_000), prof("grid", 400_000), prof("many", 8_000)],
         }
     }
     fn strategy(profile: &str) -> BoxedStrategy<SimCase> {
         if profile == "grid" {
             return contract_case_on("blocking", true, true);
         }
+        if profile == "many" {
+            return contract_case_full("blocking", true, true, true);
+        }
         contract_case("blocking", profile == "zero")
     }
     fn check(c: &SimCase, obs: &mut Obs) -> Result<(), Failure> {
         let (vs, st) = run(c);
+        if c.client.len() > 64 || c.server.len() > 64 {
+            obs.hit("more_than_64_machines_on_a_side");
+        }
         obs.add("blocking_periods", st.periods);
         obs.add("period_updated_by_second_action", st.period_updates);
         obs.add("update_with_different_bypass_flag", st.update_with_different_bypass);
@@ -133,6 +152,7 @@ impl Prop for C16 {
     }
     fn required_classes() -> Vec<&'static str> {
         vec![
+            "more_than_64_machines_on_a_side",
             "blocking_periods",
             "period_updated_by_second_action",
             "update_with_different_bypass_flag",
@@ -161,18 +181,24 @@ impl Prop for C17 {
     const RULE: &'static str = "case = trace x delay x 0..=3 machines per side biased to SendPadding/BlockOutgoing with timeouts from 0 upwards, re-issued before they fire, and Cancel actions of each timer kind x fractions x seed, iteration-bounded, unfiltered. Non-trivial: a run in which an action was superseded or cancelled before firing and another one fired. Distinct = hash of the case.";
     fn profiles(tier: Tier) -> Vec<Profile> {
         match tier {
-            Tier::Quick => vec![prof("actions", 36_000), prof("zero", 18_000), prof("grid", 30_000)],
-            Tier::Thorough => vec![prof("actions", 450_000), prof("zero", 200_000), prof("grid", 400_000)],
+            Tier::Quick => vec![prof("actions", 36_000), prof("zero", 18_000), prof("grid", 30_000), prof("many", 600)],
+            Tier::Thorough => vec![prof("actions", 450_000), prof("zero", 200_000), prof("grid", 400_000), prof("many", 8_000)],
         }
     }
     fn strategy(profile: &str) -> BoxedStrategy<SimCase> {
         if profile == "grid" {
             return contract_case_on("actions", true, true);
         }
+        if profile == "many" {
+            return contract_case_full("actions", true, true, true);
+        }
         contract_case("actions", profile == "zero")
     }
     fn check(c: &SimCase, obs: &mut Obs) -> Result<(), Failure> {
         let (vs, st) = run(c);
+        if c.client.len() > 64 || c.server.len() > 64 {
+            obs.hit("more_than_64_machines_on_a_side");
+        }
         obs.add("padding_fired", st.fires_padding);
         obs.add("blocking_fired", st.fires_blocking);
         obs.add("superseded_before_firing", st.superseded);
@@ -186,7 +212,7 @@ impl Prop for C17 {
         first(&vs, "C17")
     }
     fn required_classes() -> Vec<&'static str> {
-        vec!["padding_fired", "blocking_fired", "superseded_before_firing", "action_timer_cancelled", "machines_on_both_sides"]
+        vec!["more_than_64_machines_on_a_side", "padding_fired", "blocking_fired", "superseded_before_firing", "action_timer_cancelled", "machines_on_both_sides"]
     }
     fn assumptions() -> Vec<&'static str> {
         ASSUME.to_vec()
@@ -206,18 +232,24 @@ impl Prop for C18 {
     const RULE: &'static str = "case = trace x delay x 0..=3 machines per side biased to UpdateTimer (both replace settings, durations from 1 us in profile 'timers', from 0 in profile 'zero') and Cancel x fractions x seed, iteration-bounded, unfiltered. Non-trivial: a run with a non-replace update that did not change the timer, one that did, and a TimerEnd. Distinct = hash of the case.";
     fn profiles(tier: Tier) -> Vec<Profile> {
         match tier {
-            Tier::Quick => vec![prof("timers", 36_000), prof("zero", 18_000), prof("grid", 30_000)],
-            Tier::Thorough => vec![prof("timers", 450_000), prof("zero", 200_000), prof("grid", 400_000)],
+            Tier::Quick => vec![prof("timers", 36_000), prof("zero", 18_000), prof("grid", 30_000), prof("many", 600)],
+            Tier::Thorough => vec![prof("timers", 450_000), prof("zero", 200_000), prof("grid", 400_000), prof("many", 8_000)],
         }
     }
     fn strategy(profile: &str) -> BoxedStrategy<SimCase> {
         if profile == "grid" {
             return contract_case_on("timers", true, true);
         }
+        if profile == "many" {
+            return contract_case_full("timers", true, true, true);
+        }
         contract_case("timers", profile == "zero")
     }
     fn check(c: &SimCase, obs: &mut Obs) -> Result<(), Failure> {
         let (vs, st) = run(c);
+        if c.client.len() > 64 || c.server.len() > 64 {
+            obs.hit("more_than_64_machines_on_a_side");
+        }
         obs.add("update_changed_timer", st.timer_changed_update);
         obs.add("update_left_timer_unchanged", st.timer_unchanged_update);
         obs.add("timer_end", st.timer_end);
@@ -231,6 +263,7 @@ impl Prop for C18 {
     }
     fn required_classes() -> Vec<&'static str> {
         vec![
+            "more_than_64_machines_on_a_side",
             "update_changed_timer",
             "update_left_timer_unchanged",
             "timer_end",
